@@ -555,6 +555,13 @@ func main() {
 		for i := 3; i < nq; i += 6 {
 			qs[i] = genPageProbe(qr, d, i/6)
 		}
+		// every 6th query (phase 1) is a grouped paging probe, run with inner chunk sizes 1, 2, 1024
+		for i := 1; i < nq; i += 6 {
+			qs[i] = genGroupedPageProbe(qr, d, i/6)
+			for ci := range cells[i] {
+				cells[i][ci].Inner = probeInner[ci%len(probeInner)]
+			}
+		}
 		// every 6th query (phase 5) is a fill probe: few buckets, zero to two of them empty,
 		// run with inner chunk sizes 1, 2 and 1024 like the tie probes
 		for i := 5; i < nq; i += 6 {
